@@ -58,6 +58,12 @@ func c08Programs() map[string]e3Spec {
 			"TestA":   {Calls: []e3Call{snap("default")}},
 			"TestB":   {Calls: []e3Call{{API: "ssnap", Cfg: "default"}}},
 		},
+		// a file whose only owners are SUBTESTS (their parent makes no call): when they skip, nobody addresses the file
+		"P6-subtests-only-owners": {
+			"TestB": {Subs: []e3Sub{{Name: "x", Calls: []e3Call{snap("default"), snap("default")}}, {Name: "y", Calls: []e3Call{snap("default")}, Subs: []e3Sub{{Name: "z", Calls: []e3Call{snap("default")}}}}}},
+			"TestA": {Calls: []e3Call{snap("default")}},
+			"TestC": {Subs: []e3Sub{{Name: "only", Calls: []e3Call{snap("default")}}}},
+		},
 		"P3-sole-owner": {
 			"TestB":   {Calls: []e3Call{snap("default"), {API: "ssnap", Cfg: "default"}}},
 			"TestA":   {Calls: []e3Call{snap("default")}},
@@ -70,7 +76,7 @@ func c08Programs() map[string]e3Spec {
 var c08Patterns = []string{"", "TestA", "^TestA$", "TestA$", "A", "B", "Sub", "sub", "x", "^x$", "1", "TestA/x", "TestA/^x$", "/x", "A/x/y", "TestA|TestB",
 	"TestA/x|TestB", "^Test(A|B)$", "Test[AB]", ".", "TestZ", "NoSnap", "NoSnap|TestA$", "_-_1", "TestZ|sub"}
 
-var c08SkipCandidates = []string{"TestA", "TestB", "TestSub", "TestA/x", "TestB/x", "TestA/v1", "TestA/v1.1", "TestA/v1#x"}
+var c08SkipCandidates = []string{"TestA", "TestB", "TestSub", "TestA/x", "TestB/x", "TestA/v1", "TestA/v1.1", "TestA/v1#x", "TestB/y", "TestC/only"}
 
 // c08ApplySkips returns a copy of the program with the skip calls planted.
 func c08ApplySkips(prog e3Spec, skips map[string]string) e3Spec {
